@@ -78,6 +78,31 @@ def _const_variant(prog, body, op):
     return None
 
 
+def escapes(prog, c, allowed, entry=None):
+    """Reverse closure from function `c`, stopping at members of `allowed`: the first externally callable (or
+    caller-less) function found outside `allowed`, or None when `c` is only reachable through `allowed`."""
+    prog.edges()
+    if entry is None:
+        entry = {f["n"] for f in c03.entry_points(prog)}
+    seen = {c}
+    work = [c]
+    while work:
+        f = work.pop()
+        base = prog.fn_of_closure(f)
+        if f in allowed or base in allowed:
+            continue
+        preds = {e.caller for e in prog.callers_of(f)}
+        if f != base:
+            preds.add(base)
+        if f in entry or not preds:
+            return f
+        for p in preds:
+            if p not in seen:
+                seen.add(p)
+                work.append(p)
+    return None
+
+
 def confined(chk, prog, rule, target, allowed, what):
     """Every direct caller of `target` is one of `allowed` or is reachable (in the reverse call graph,
     not expanding through `allowed`) only from `allowed` functions: no root / externally callable
@@ -93,25 +118,7 @@ def confined(chk, prog, rule, target, allowed, what):
     n = 0
     for c in callers:
         n += 1
-        # reverse closure from c, stopping at allowed members
-        seen = {c}
-        work = [c]
-        bad = None
-        while work and bad is None:
-            f = work.pop()
-            base = prog.fn_of_closure(f)
-            if f in allowed or base in allowed:
-                continue
-            preds = {e.caller for e in prog.callers_of(f)}
-            if f != base:
-                preds.add(base)
-            if f in entry or not preds:
-                bad = f
-                break
-            for p in preds:
-                if p not in seen:
-                    seen.add(p)
-                    work.append(p)
+        bad = escapes(prog, c, allowed, entry)
         chk.inst(rule, "%s<-%s" % (target, c), bad is None,
                  detail="%s: `%s` is called from `%s`, reachable from `%s` which is outside the analysed "
                         "primitives %s" % (what, target, c, bad, sorted(allowed)),
@@ -147,7 +154,7 @@ def protocol_rows(chk, prog, rule, methods, with_pacing=False, general=True, per
             if aspects is not None:
                 keep = []
                 for p_ in probs:
-                    m_ = _re.match(r"^\[([a-z]+)\] ", p_)
+                    m_ = _re.match(r"^\[([a-z-]+)\] ", p_)
                     if (m_.group(1) if m_ else "walk") in aspects:
                         keep.append(p_)
                 probs = keep
